@@ -130,6 +130,15 @@ func c06Exec(t testing.TB, cfg c06Cfg, script []c06Op, gen func(e *c06Env, n int
 					time.Sleep(time.Millisecond)
 				}
 				run.idleClose = e.liveCount() == 0
+				if !run.idleClose {
+					for _, id := range e.order {
+						if !e.streams[id].dead() {
+							run.human += fmt.Sprintf(" [still live at close: %d]", id)
+						}
+					}
+				}
+			} else {
+				run.human += fmt.Sprintf(" [closed without GOAWAY/doNotReuse: goAway=%v noReuse=%v]", e.goAwaySent, e.noReuse)
 			}
 		}
 	}
@@ -225,7 +234,7 @@ func c06Judge(s *verifh.Session, runs []*c06Run) {
 		if monitor != "ok" {
 			s.Count("monitor:" + monitor)
 		}
-		human := fmt.Sprintf("cfg=%s script=%s -> %s [monitor=%s close=%v timeouts=%d]", r.cfg.name, strings.Join(r.tokens, ";"), impl, monitor, r.closedAt, r.timeouts)
+		human := fmt.Sprintf("cfg=%s script=%s -> %s [monitor=%s close=%v timeouts=%d]%s", r.cfg.name, strings.Join(r.tokens, ";"), impl, monitor, r.closedAt, r.timeouts, r.human)
 		if len(human) > 1500 {
 			human = human[:1500] + "…"
 		}
@@ -442,8 +451,8 @@ func c06Gen(r *rand.Rand, maxOps int) func(e *c06Env, n int) *c06Op {
 		}
 		for try := 0; try < 20; try++ {
 			switch k := r.Intn(100); {
-			case k < 14:
-				if len(e.order) >= 6 || e.pending != nil {
+			case k < 10:
+				if len(e.order) >= 6 || len(e.opened) >= 9 || e.pending != nil {
 					continue
 				}
 				pad := r.Intn(200)
@@ -451,7 +460,7 @@ func c06Gen(r *rand.Rand, maxOps int) func(e *c06Env, n int) *c06Op {
 					pad = verifh.Pick(r, []int{16300, 16384, 16500, 33000, 70000})
 				}
 				return &c06Op{kind: "o", a: verifh.Pick(r, c06Sizes), flag: r.Intn(4) != 0, b: pad}
-			case k < 40:
+			case k < 40: // feed
 				if len(feedable) == 0 || busy {
 					continue
 				}
@@ -460,7 +469,7 @@ func c06Gen(r *rand.Rand, maxOps int) func(e *c06Env, n int) *c06Op {
 					nn = verifh.Pick(r, []int{1, 100, 8192, 16383, 16384})
 				}
 				return &c06Op{kind: "f", s: verifh.Pick(r, feedable), a: nn}
-			case k < 55:
+			case k < 50:
 				inc := verifh.Pick(r, []int{1, 2, 100, 16383, 16384, 16385, 65535, 100000, 1 << 20, 1 << 24})
 				if r.Intn(3) == 0 || len(live) == 0 {
 					if e.connWin+int64(inc) > math.MaxInt32 {
@@ -473,7 +482,7 @@ func c06Gen(r *rand.Rand, maxOps int) func(e *c06Env, n int) *c06Op {
 					inc = math.MaxInt32 // stream-level overflow: the client must reset the stream
 				}
 				return &c06Op{kind: "pw", s: s, b: inc}
-			case k < 65:
+			case k < 58:
 				var vals []xhttp2.Setting
 				if r.Intn(3) != 0 {
 					w := verifh.Pick(r, []uint32{0, 1, 100, 16383, 16384, 65535, 65536, 1 << 20, 1 << 24, math.MaxInt32})
@@ -497,17 +506,17 @@ func c06Gen(r *rand.Rand, maxOps int) func(e *c06Env, n int) *c06Op {
 					vals = append(vals, c06Set(xhttp2.SettingHeaderTableSize, 4096), c06Set(xhttp2.SettingID(0x99), 7))
 				}
 				return &c06Op{kind: "ps", vals: vals}
-			case k < 67:
+			case k < 60:
 				if e.acksSent > 0 {
 					continue
 				}
 				return &c06Op{kind: "pa"}
-			case k < 74:
+			case k < 68:
 				if len(respondable) == 0 {
 					continue
 				}
 				return &c06Op{kind: "ph", s: verifh.Pick(r, respondable), flag: r.Intn(3) == 0}
-			case k < 86:
+			case k < 82:
 				if len(dataable) == 0 {
 					continue
 				}
@@ -522,17 +531,17 @@ func c06Gen(r *rand.Rand, maxOps int) func(e *c06Env, n int) *c06Op {
 					continue // a conforming peer stays inside the windows the client advertised
 				}
 				return &c06Op{kind: "pd", s: s, a: nn, b: pad, flag: r.Intn(5) == 0}
-			case k < 93:
+			case k < 92:
 				if len(readable) == 0 {
 					continue
 				}
 				return &c06Op{kind: "r", s: verifh.Pick(r, readable), a: verifh.Pick(r, []int{1, 100, 4095, 4096, 5000, 65536, 1 << 20})}
-			case k < 95:
+			case k < 94:
 				if len(closable) == 0 {
 					continue
 				}
 				return &c06Op{kind: "x", s: verifh.Pick(r, closable)}
-			case k < 97:
+			case k < 96:
 				// a cancelled context is noticed at once while RoundTrip is still waiting for the
 				// response or the request is fully written; a body writer blocked after RoundTrip
 				// returned only notices it at its next wake-up (not modelled as a separate delay)
@@ -540,7 +549,7 @@ func c06Gen(r *rand.Rand, maxOps int) func(e *c06Env, n int) *c06Op {
 					continue
 				}
 				return &c06Op{kind: "c", s: verifh.Pick(r, cancellable)}
-			case k < 99:
+			case k < 98:
 				// after the peer's own END_STREAM the client may or may not answer a RST_STREAM with
 				// RST_STREAM(NO_ERROR) (select between two ready channels): not scripted
 				if len(resettable) == 0 {
@@ -548,8 +557,8 @@ func c06Gen(r *rand.Rand, maxOps int) func(e *c06Env, n int) *c06Op {
 				}
 				return &c06Op{kind: "pr", s: verifh.Pick(r, resettable), b: verifh.Pick(r, []int{0, 7, 8, 1})}
 			default:
-				if e.goAwaySent || len(e.order) == 0 {
-					continue
+				if e.goAwaySent || len(e.order) == 0 || n < maxOps/2 || r.Intn(2) == 0 {
+					continue // GOAWAY ends most of what can still happen: late and rare
 				}
 				return &c06Op{kind: "pg", s: -1, a: int(e.order[r.Intn(len(e.order))])}
 			}
@@ -584,7 +593,7 @@ func TestVerif_C06_script(t *testing.T) {
 		s.Count("directed")
 	}
 	r := s.Rand()
-	n := verifh.N(250, 6000)
+	n := verifh.N(600, 8000)
 	stalls := 0
 	if only != "" {
 		n = 0
